@@ -27,7 +27,9 @@ def run_member(base, var, wd, idx):
     o["verbose"] = var["verbose"]
     o["FPTrack"] = var["fptrack"]
     name = var["name"] + ".h5"
-    if var["track"]:
+    if var["track"] == "devnull":
+        o["tracking"] = "/dev/null"          # accepted spelling of "no tracking"
+    elif var["track"]:
         tf = os.path.join(wd, "track%d.txt" % idx)
         with open(tf, "w") as f:
             for q, p in var["track"]:
@@ -153,6 +155,8 @@ def cases(draw):
     def variant(i):
         ntr = draw(st.sampled_from([0, 0, 1, 5, 20]))
         track = [[draw(st.floats(-5, 5)), draw(st.floats(-5, 5))] for _ in range(ntr)]
+        if ntr == 0 and draw(st.booleans()):
+            track = "devnull"
         return dict(outstep=draw(st.sampled_from([0, 1, 2, 5, 17, max(L, 1)] + long_out + ([0] if long_out else []))), save=draw(st.sampled_from([0, 1, 2])),
                     track=track, fptrack=draw(st.sampled_from([0, 1, 2, 3])), verbose=draw(st.booleans()),
                     name=draw(st.sampled_from(["out", "res", "sub_x"])) + str(i))
@@ -162,7 +166,7 @@ def cases(draw):
     rep["repeat_of"] = 0
     fam.append(rep)
     c = dict(opts=base, family=fam)
-    if len(base.get("BunchCurrent", [1])) == 1 and draw(st.integers(0, 5)) == 0:
+    if len(base.get("BunchCurrent", [1])) == 1 and draw(st.integers(0, 3)) == 0:
         c["startleg"] = draw(st.integers(1, 10))
     return c
 
